@@ -177,7 +177,7 @@ class Adapter(EnvAdapter):
             for tl in (1, 2, 3, 7, None):
                 pol = ["border"] + POL if mz == "halfopen" else POL
                 if tl is None:
-                    out.append(_c(f"{mz}_tnone", mz, None, episodes=24, max_steps=150, policies=pol))
+                    out.append(_c(f"{mz}_tnone", mz, None, episodes=12, max_steps=120, policies=pol))
                 else:
                     out.append(_c(f"{mz}_t{tl}", mz, tl, episodes=8, max_steps=tl + 3, policies=pol))
         out.append(_c("sealed_tnone_long", "sealed", None, episodes=3, max_steps=1003, probe_every=25,
